@@ -58,6 +58,11 @@ Proof.
 Qed.
 Lemma bind_FS {A B} (m : M cli A) (f : A -> M cli B) : Spec m Fp -> (forall a, Spec (f a) Sp) -> Spec (bind m f) Fp.
 Proof. intros. eapply Spec_bind; eauto; unfold Fp, Sp, isOk; intros; try contradiction. subst. rewrite app_nil_r. apply H1. exact I. Qed.
+Lemma bind_FP {A B} (m : M cli A) (f : A -> M cli B) : Spec m Fp -> (forall a, Spec (f a) Pp) -> Spec (bind m f) Fp.
+Proof.
+  intros. eapply Spec_bind; eauto; unfold Fp, Pp, isOk; intros; try contradiction.
+  destruct (H2 H3) as [->|Hf]; [rewrite app_nil_r; apply H1; exact I|apply ends_flush_app; exact Hf].
+Qed.
 Lemma bind_PS {A B} (m : M cli A) (f : A -> M cli B) : Spec m Pp -> (forall a, Spec (f a) Sp) -> Spec (bind m f) Pp.
 Proof. intros. eapply Spec_bind; eauto; unfold Pp, Sp, isOk; intros; try contradiction. subst. rewrite app_nil_r. apply H1. exact I. Qed.
 
@@ -161,7 +166,9 @@ Section CliFlush.
       apply bind_QF; [apply Q_catch, Q_run_hops|intros r]. apply bind_QF; [apply S_Q, S_get|intros s1].
       apply bind_QF; [destruct (newp s1); [apply S_Q; smod|apply S_Q, S_ret]|intros].
       apply bind_QF; [destruct (is_dirty (wst s1)); [apply Q_wr|apply S_Q, S_ret]|intros].
-      apply bind_FS; [apply F_fl|intros; apply S_reraise]. Qed.
+      apply bind_FP; [apply F_fl|intros].
+      apply bind_SX; [unfold Pp, isOk; tauto|unfold Pp, isOk; tauto|apply S_reraise|intros].
+      destruct (cs_fail cs (length (hcalls s0)) name args); [apply F_P, F_process_error|apply S_P, S_ret]. Qed.
   Lemma F_process_help req : Spec (process_help okf cs req) Fp.
   Proof. unfold process_help. apply bind_QF; [unfold new_writer; apply S_Q; smod|intros]. apply bind_QF; [apply Q_run_hops|intros].
     apply bind_QF; [apply S_Q, S_get|intros s1]. apply bind_QF; [destruct (is_dirty (wst s1)); [apply Q_wr|apply S_Q, S_ret]|intros; apply F_fl]. Qed.
